@@ -149,6 +149,9 @@ type c11World struct {
 	hwStop    chan struct{}
 	hwDone    chan struct{}
 	termCh    chan struct{}
+	endNow    chan struct{} // closed to make the hardware end the source without waiting for its next block time
+	termAt    time.Time     // when the terminating block was issued
+	callStart time.Time
 	blkLen    int
 	blkVar    int
 	period    time.Duration
@@ -180,6 +183,8 @@ type c11World struct {
 
 	fs         *simrt.FaultFS
 	faultClass string
+	persist    bool // the failure stays: from its first occurrence on, every operation of the class fails
+	fires      int  // how often the injected failure has happened so far
 	nreq       int
 	nerr       int
 }
@@ -267,6 +272,11 @@ func c11Body(env *simrt.Env) {
 		if c.faultClass != "none" {
 			c.fs.FailErr = []error{syscall.EIO, syscall.EACCES, syscall.ENOSPC}[simrt.DrawFault(3)]
 			simrt.Hit("plan:io-failure:" + c.faultClass)
+			// an uncreatable file is a condition, not an event: in half of the runs every later attempt on
+			// the same path class fails too (name too long, directory not writable, quota)
+			if c.persist = simrt.DrawFault(2) == 1; c.persist {
+				simrt.Hit("plan:io-failure-persistent:" + c.faultClass)
+			}
 		}
 	}
 	simrt.SetFS(c.fs)
@@ -323,7 +333,7 @@ func c11Body(env *simrt.Env) {
 
 	// wind down: the pipeline still makes progress, Stop returns, requests afterwards are refused
 	if c.state() == c11Healthy {
-		c.checkProgress(c.lastKind)
+		c.checkProgress(c.lastKind, 1)
 		time.Sleep(c.blockTime * time.Duration(simrt.Draw(4)))
 		c.pollRawBlocks()
 	}
@@ -336,13 +346,34 @@ func c11Body(env *simrt.Env) {
 	c.stopHardware()
 	c.pollRawBlocks()
 	env.Sample(map[string]interface{}{"source": c.name, "channels": nchan, "requests": c.nreq, "error_replies": c.nerr, "starts": c.starts,
-		"self_terminations": c.selfEnds, "io_failure": c.faultClass, "io_failure_fired": c.fs.Fired, "raw_blocks_completed": len(c.rawSeen)})
+		"self_terminations": c.selfEnds, "io_failure": c.faultClass, "io_failure_persistent": c.persist, "io_failures_fired": c.fires, "raw_blocks_completed": len(c.rawSeen)})
+}
+
+// noteFires counts occurrences of the injected failure and, in the persistent mode, re-arms the plan
+// so that the next operation of the same path class fails as well. (simrt's plan fails one operation;
+// a fresh plan with FailAt 0 is installed each time the previous one has fired. Called at every request
+// boundary and every region event, i.e. between any two operations of one class that dastard performs.)
+func (c *c11World) noteFires() {
+	if !c.fs.Fired {
+		return
+	}
+	c.fires++
+	if !c.persist {
+		c.fs.Fired = false
+		c.fs.FailAt = -1
+		return
+	}
+	nf := simrt.NewFaultFS(c.fs.TmpDir)
+	nf.FailMatch, nf.FailAt, nf.FailErr, nf.TmpSeq, nf.Ops = c.fs.FailMatch, 0, c.fs.FailErr, c.fs.TmpSeq, c.fs.Ops
+	c.fs = nf
+	simrt.SetFS(nf)
 }
 
 // ---------------------------------------------------------------------------------
 // region monitor (runs inside simrt.Enter/Exit on the task that enters the region)
 
 func (c *c11World) monitor(ev simrt.RegionEvent) {
+	c.noteFires()
 	switch ev.Region {
 	case "process":
 		if ev.Enter {
@@ -479,7 +510,7 @@ func (c *c11World) startMain() {
 	c.noteStarted(c.main, c.nchanMain, false)
 	c.env.Op("start %s (#%d)", c.name, c.starts)
 	if c.kind == 0 {
-		c.hwStop, c.hwDone, c.termCh = make(chan struct{}), make(chan struct{}), make(chan struct{})
+		c.hwStop, c.hwDone, c.termCh, c.endNow = make(chan struct{}), make(chan struct{}), make(chan struct{}), make(chan struct{})
 		stop, done, term := c.hwStop, c.hwDone, c.termCh
 		go c.hardware(stop, done, term)
 	}
@@ -520,17 +551,20 @@ func (c *c11World) hardware(stop, done, term chan struct{}) {
 				return
 			}
 		}
-		if c.endReq != 0 {
+		terminate := func() {
 			var b *dataBlock // nil: the source closes its block channel
 			if c.endReq == 1 {
 				b = &dataBlock{err: errors.New("scripted hardware error")}
 			}
-			c.termSent = true
+			c.termSent, c.termAt = true, time.Now()
 			close(term)
 			select {
 			case ss.feed <- b:
 			case <-stop:
 			}
+		}
+		if c.endReq != 0 {
+			terminate()
 			return
 		}
 		b := new(dataBlock)
@@ -558,6 +592,10 @@ func (c *c11World) hardware(stop, done, term chan struct{}) {
 		select {
 		case ss.feed <- b:
 			sent += n
+		case <-c.endNow:
+			// told to end the source while this block was still waiting to be taken: the block is lost
+			terminate()
+			return
 		case <-stop:
 			return
 		}
@@ -569,7 +607,9 @@ func (c *c11World) hardware(stop, done, term chan struct{}) {
 
 func (c *c11World) timing() {
 	st := c.state()
-	switch t := simrt.Draw(9); {
+	switch t := simrt.Draw(10); {
+	case t == 9:
+		c.lateOrphan(st)
 	case t == 0:
 		// back to back
 	case t <= 2:
@@ -624,6 +664,37 @@ func (c *c11World) timing() {
 	}
 }
 
+// lateOrphan arranges that the next request waits for a busy core loop for several of the RPC layer's
+// re-check periods (100 ms) and that the source ends by itself at a drawn moment of that wait. The core
+// loop is kept busy the way a slow preceding request keeps it busy: a closure that takes 150-800 ms is
+// handed to it through the request queue. When it is done the core loop finds both the waiting request
+// and the end of the data; whichever it takes, the caller must get its one reply.
+func (c *c11World) lateOrphan(st int) {
+	if !c.env.Faulted() || st != c11Healthy || c.kind != 0 || c.endReq != 0 {
+		return
+	}
+	busy := time.Duration(150+simrt.Draw(14)*50) * time.Millisecond
+	when := time.Duration(20+simrt.Draw(int(busy/time.Millisecond))) * time.Millisecond // may also fall before the first re-check
+	kind := 1 + simrt.DrawFault(2)
+	tm := time.NewTimer(5 * time.Second)
+	select {
+	case c.sc.queuedRequests <- func() { time.Sleep(busy) }:
+	case <-tm.C:
+		return
+	}
+	tm.Stop()
+	simrt.Fault("self-termination")
+	c.env.Op("core loop busy for %v; the hardware ends the source (%s) %v into it", busy, []string{"", "error block", "closed channel"}[kind], when)
+	endNow := c.endNow
+	go func() {
+		time.Sleep(when)
+		if c.endReq == 0 && c.endNow == endNow {
+			c.endReq = kind
+			close(endNow)
+		}
+	}()
+}
+
 // ---------------------------------------------------------------------------------
 // one request + oracle
 
@@ -641,7 +712,10 @@ type c11Req struct {
 
 func (c *c11World) call(r *c11Req) {
 	st := c.state()
-	firedBefore := c.fs.Fired
+	c.noteFires()
+	firesBefore := c.fires
+	callStart := time.Now()
+	c.callStart = callStart
 	stale := st == c11Down && c.selfEnded && c.sc.isSourceActive
 	c.callActive, c.callEntered, c.callWaited, c.callKind, c.callState = true, false, false, r.kind, st
 
@@ -660,8 +734,14 @@ func (c *c11World) call(r *c11Req) {
 	close(done)
 	c.callActive = false
 
-	fired := c.fs.Fired && !firedBefore
+	c.noteFires()
+	fired := c.fires > firesBefore
 	healthy := st == c11Healthy && !c.termSent
+	if c.termSent && st == c11Healthy && !c.callEntered && r.queued && c.termAt.Sub(callStart) > 100*time.Millisecond {
+		// the request had been waiting for the core loop for more than one re-check period of the RPC layer
+		// when the source ended itself, and the core loop never took it
+		simrt.Hit("request-orphaned-after-long-wait")
+	}
 	reply := "<nil>"
 	if err != nil {
 		// the sandbox path and printed addresses differ from process to process
@@ -690,6 +770,9 @@ func (c *c11World) call(r *c11Req) {
 	case fired:
 		// relaxation: the reply may be the I/O error or a result; liveness is not relaxed
 		simrt.Hit("handler-hit-by-io-failure")
+		if c.fires > 1 {
+			simrt.Hit("handler-hit-by-io-failure-again")
+		}
 	case st == c11Down && r.needsSource && err == nil:
 		simrt.Fail("C11.reply-kind", "reply:success-without-source:"+r.kind, "%s(%s) answered success although no source is running (%s)", r.kind, r.desc, c.whyDown())
 	case healthy && r.expect == c11OK && err != nil:
@@ -708,7 +791,11 @@ func (c *c11World) call(r *c11Req) {
 		c.lastKind = r.kind // the last request the core loop actually executed
 	}
 	if healthy && c.state() == c11Healthy && (err != nil || fired || simrt.Draw(2) == 1) {
-		c.checkProgress(c.lastKind)
+		need := 1
+		if fired {
+			need = 4 // past a block that carries a drop count and one that carries external triggers
+		}
+		c.checkProgress(c.lastKind, need)
 	}
 }
 
@@ -731,6 +818,8 @@ func (c *c11World) hangSignature(r *c11Req) (sig, what string) {
 		return "hang:request-after-source-ended", "the source had ended by itself before the call"
 	case c.callState == c11Down:
 		return "hang:request-without-source", "no source was running (" + c.whyDown() + ")"
+	case c.callState == c11Healthy && c.termSent && r.queued && !c.callEntered:
+		return "hang:queued-request-orphaned-by-source-end", fmt.Sprintf("the request was waiting for the core loop (for %v) when the source ended by itself, and nobody answered it", c.termAt.Sub(c.callStart))
 	case c.callState == c11Ending || c.termSent:
 		return "hang:request-while-source-ending", "the source ended by itself around the call"
 	case !r.queued:
@@ -742,16 +831,20 @@ func (c *c11World) hangSignature(r *c11Req) (sig, what string) {
 }
 
 // checkProgress: while the source is alive the block counter keeps increasing.
-func (c *c11World) checkProgress(after string) {
-	start := c.any.readCounter
+func (c *c11World) checkProgress(after string, need int) {
+	target := c.any.readCounter + need
+	last := c.any.readCounter
 	deadline := time.Now().Add(20 * time.Second)
 	step := c.blockTime / 3
-	for c.any.readCounter == start {
+	for c.any.readCounter < target {
 		if c.state() != c11Healthy || c.endReq != 0 {
 			return
 		}
+		if n := c.any.readCounter; n != last {
+			last, deadline, step = n, time.Now().Add(20*time.Second), c.blockTime/3
+		}
 		if time.Now().After(deadline) {
-			simrt.Fail("C11.progress", "progress:stalled-after:"+after, "no data block was processed for 20 s of simulated time after %s although the source is running (blocks processed: %d); tasks: %v", after, start, simrt.AliveTaskInfo())
+			simrt.Fail("C11.progress", "progress:stalled-after:"+after, "no data block was processed for 20 s of simulated time after %s although the source is running (blocks processed: %d); tasks: %v", after, last, simrt.AliveTaskInfo())
 		}
 		time.Sleep(step)
 		if step < 500*time.Millisecond {
